@@ -1,10 +1,12 @@
 package main
 
 import (
+	"errors"
 	"fmt"
 	"math"
 	"os"
 	"sort"
+	"strconv"
 	"strings"
 	"sync"
 
@@ -43,6 +45,11 @@ type method struct {
 	// toStyle marks dst-style methods (SolveTo family), see solve.go: an
 	// overlapping dst/b must be rejected or solved correctly.
 	toStyle bool
+	// errOp is 1 + the index of the operand whose values decide whether the
+	// method returns an error (the matrix it inverts or factorises); 0 = the
+	// method has no such operand. Cases of these methods, and of the toStyle
+	// methods (whose factorization is private), are run once per value class.
+	errOp int
 }
 
 // caseSpec is one concrete call.
@@ -59,6 +66,12 @@ type caseSpec struct {
 	size  int // words in the shared backing
 	salt  uint64
 	fac   facCache // the executing goroutine's factorizations (solve.go)
+	// vclass is the value class (vcWell, vcIll, vcSingular) of the operand
+	// m.errOp / of the private factorization.
+	vclass int
+	// status is set by method.call: the class of the returned error, or the
+	// printed secondary return values (Copy family).
+	status string
 }
 
 type opReplay struct {
@@ -124,6 +137,9 @@ type executor struct {
 	maxDev float64
 	nCalls int
 	fac    facCache
+	// statusN counts, for the methods with an error path, the aliased calls
+	// by value class and returned status (evidence of reach).
+	statusN map[string]int
 }
 
 var execPool sync.Pool
@@ -132,7 +148,7 @@ func getExec(c *vrt.Ctx) *executor {
 	if v := execPool.Get(); v != nil {
 		return v.(*executor)
 	}
-	return &executor{c: c, evals: make(map[string]int), found: make(map[string]*finding), fac: facCache{}}
+	return &executor{c: c, evals: make(map[string]int), found: make(map[string]*finding), fac: facCache{}, statusN: make(map[string]int)}
 }
 
 var devMu sync.Mutex
@@ -144,6 +160,10 @@ func putExec(x *executor) {
 		delete(x.evals, k)
 	}
 	x.flushFindings()
+	for k, n := range x.statusN {
+		x.c.Count("errpath["+k+"]", int64(n))
+		delete(x.statusN, k)
+	}
 	devMu.Lock()
 	if x.maxDev > globalMaxDev {
 		globalMaxDev = x.maxDev
@@ -201,6 +221,71 @@ func readout(m mat.Matrix) (r, c int, v []float64) {
 	return
 }
 
+// errClass is the comparable class of a returned error.
+func errClass(err error) string {
+	if err == nil {
+		return "nil"
+	}
+	var c mat.Condition
+	if errors.As(err, &c) {
+		if math.IsInf(float64(c), 1) {
+			return "Condition(+Inf)"
+		}
+		return "Condition(finite)"
+	}
+	return "error:" + err.Error()
+}
+
+// resultDefined reports whether the documentation defines the result for a
+// call that returned status: no error, a finite Condition error, or (Copy
+// family) plain return values.
+func resultDefined(status string) bool {
+	return status != "Condition(+Inf)" && !strings.HasPrefix(status, "error:")
+}
+
+// degrade turns the (already well conditioned) operand o into value class
+// vc: ill conditioned (condition number about 1e17, still factorisable) or
+// exactly singular / not positive definite.
+func degrade(o *opnd, a []float64, vc int) {
+	w := o.w
+	at := func(i, j int) *float64 { return &a[w.off+i*w.st+j] }
+	switch o.k.base() {
+	case kSym:
+		// congruence D*A*D with D = diag(1,...,1,d): stays positive definite
+		// for d > 0 (condition about 1e18), singular for d = 0.
+		d := 1e-9
+		if vc == vcSingular {
+			d = 0
+		}
+		n := w.r
+		for i := 0; i < n-1; i++ {
+			*at(i, n-1) *= d
+		}
+		*at(n-1, n-1) *= d * d
+	case kTriU, kTriL:
+		n := w.r
+		if vc == vcSingular {
+			*at(n-1, n-1) = 0
+		} else {
+			*at(n-1, n-1) *= illScale
+		}
+	default:
+		s := illScale
+		if vc == vcSingular {
+			s = 0
+		}
+		if w.r >= w.c {
+			for i := 0; i < w.r; i++ {
+				*at(i, w.c-1) *= s
+			}
+		} else {
+			for j := 0; j < w.c; j++ {
+				*at(w.r-1, j) *= s
+			}
+		}
+	}
+}
+
 func (x *executor) condition(o *opnd, a []float64) {
 	n := o.w.r
 	if o.w.c < n {
@@ -236,6 +321,10 @@ func (x *executor) run(cs *caseSpec) {
 		o := &cs.ops[i]
 		x.condition(o, arrs[o.arr])
 	}
+	if m.errOp > 0 && cs.vclass != vcWell {
+		o := &cs.ops[m.errOp-1]
+		degrade(o, arrs[o.arr], cs.vclass)
+	}
 	pre := make([][]float64, nArr)
 	for i := range arrs {
 		pre[i] = clone(arrs[i])
@@ -250,7 +339,9 @@ func (x *executor) run(cs *caseSpec) {
 		o := &cs.ops[i]
 		refOps[i] = present(o.k, buildBase(o.k.base(), o.w, clone(arrs[o.arr])))
 	}
+	cs.status = ""
 	pRef := try(func() { m.call(refRecv, refOps, cs) })
+	refStatus := cs.status
 	if pRef != nil {
 		// The unaliased call itself fails: the case is outside the method's
 		// domain (a generator error), not an aliasing observation.
@@ -283,8 +374,13 @@ func (x *executor) run(cs *caseSpec) {
 			panic("c05: generator aliased an operand mat cannot see")
 		}
 	}
+	cs.status = ""
 	p := try(func() { m.call(recv, ops, cs) })
+	status := cs.status
 	x.nCalls++
+	if m.errOp > 0 || m.toStyle {
+		x.statusN["v"+strconv.Itoa(cs.vclass)+" "+status]++
+	}
 
 	// Expectation from ground truth.
 	mustPanic, mayPanic, sameRegion := false, false, false
@@ -306,7 +402,7 @@ func (x *executor) run(cs *caseSpec) {
 			outcome = "other-panic"
 		}
 	}
-	x.evals[m.name+"|"+desc+"|"+x.otherDesc(cs)+"|"+outcome]++
+	x.evals[m.name+"|"+desc+"|"+x.otherDesc(cs)+"|v"+strconv.Itoa(cs.vclass)+":"+status+"|"+outcome]++
 	if x.nCalls&0xfff == 1 && c.WantSample() {
 		c.Sample(x.replayOf(cs, rels, outcome, p, nil, nil))
 	}
@@ -346,7 +442,15 @@ func (x *executor) run(cs *caseSpec) {
 		x.checkUntouched(cs, rels, arrs, pre, true)
 	default:
 		gr, gc, got := readout(recv.(mat.Matrix))
-		ok := gr == wr && gc == wc && x.close(got, want)
+		// After Condition(+Inf) or another failure the documentation leaves
+		// the destination undefined ("the solve algorithm may have completed
+		// early"): only the error itself, and operand immutability, are judged.
+		ok := gr == wr && gc == wc && (!resultDefined(refStatus) || !resultDefined(status) || x.close(got, want))
+		if !mustPanic && status != refStatus {
+			x.report(cs, rels, "status-differs", sevNone, func() (string, any) {
+				return fmt.Sprintf("the aliased call returned %q, the same call on unshared copies %q (returned error / secondary return values)", status, refStatus), x.replayOf(cs, rels, outcome, nil, got, want)
+			})
+		}
 		switch {
 		case (mustPanic || sameRegion) && (m.copyLike || m.realloc || m.toStyle):
 			if !ok {
@@ -359,6 +463,11 @@ func (x *executor) run(cs *caseSpec) {
 					x.report(cs, rels, "wrong-result", sevNone, mk)
 				}
 			}
+		case mustPanic && !resultDefined(status) && sameBits(arrs[0], pre[0]) < 0:
+			// The call failed early (Condition(+Inf), not positive definite,
+			// ...) before reaching its overlap check and wrote nothing at all:
+			// no result was produced that the overlap could have corrupted,
+			// and the documentation does not order the two diagnostics.
 		case mustPanic:
 			mk := func() (string, any) {
 				return "receiver partially overlaps an operand's elements but the call returned", x.replayOf(cs, rels, outcome, nil, got, want)
